@@ -85,6 +85,13 @@ func (f *Frame) evalCall(st *State, call *ast.CallExpr) []Val {
 	if h, ok := stdHandlers[key]; ok {
 		return h(f, st, call, recvExpr)
 	}
+	if h, ok := stdHandlersExtra[key]; ok {
+		return h(f, st, call, recvExpr)
+	}
+	if key == "math/big.NewInt" {
+		v := f.eval(st, call.Args[0])
+		return []Val{f.bigAlloc(st, v.T)}
+	}
 	if isLoggingCall(key) {
 		f.c.dropped[key] = true
 		return f.havocResults(st, call)
@@ -374,6 +381,9 @@ func (f *Frame) evalBuiltin(st *State, call *ast.CallExpr, name string) []Val {
 	case "new":
 		t := f.typeOf(call)
 		pt := t.Underlying().(*types.Pointer)
+		if isBigInt(t) {
+			return []Val{f.bigAlloc(st, "0")}
+		}
 		return []Val{f.mkPtr(f.zero(pt.Elem()))}
 	case "copy":
 		dst := f.eval(st, call.Args[0])
@@ -595,6 +605,10 @@ func (f *Frame) callByContract(st *State, call *ast.CallExpr, fn *types.Func, ct
 			pre.names[a.name] = a.val
 		}
 	}
+	pre.gh = map[string]Val{}
+	for gk, gv := range st.gh {
+		pre.gh[gk] = gv
+	}
 	k := f.c.counters["call:"+ct.Name]
 	f.c.counters["call:"+ct.Name] = k + 1
 	f.c.assumedContracts[ct.Key] = true
@@ -650,6 +664,15 @@ func (f *Frame) callByContract(st *State, call *ast.CallExpr, fn *types.Func, ct
 			r = pureRes[i]
 		} else {
 			r = f.havoc(st, "r_"+fn.Name(), rt)
+		}
+		if isBigInt(rt) && pureRes == nil {
+			// a returned *big.Int is a fresh reference: above every live one
+			nx := st.gh[bigNextKey].T
+			st.assume(fmt.Sprintf("(>= %s %s)", r.T, nx))
+			nn := f.c.fresh("bignext", "Int")
+			st.assume(fmt.Sprintf("(and (> %s %s) (>= %s %s))", nn, r.T, nn, nx))
+			st.gh[bigNextKey] = Val{T: nn}
+			f.c.note("*big.Int results of contracted callees are fresh references (trusted unless the callee is verified with a [distinct]/freshness clause)")
 		}
 		results = append(results, r)
 		post.names[fmt.Sprintf("r%d", i)] = r
